@@ -32,6 +32,7 @@ def run(ctx):
             continue
         # relocation recipes: reopen late, so that directories are relocated on both sides of the reopen
         rp = (ctx.rng.randrange(len(ops) * 2 // 3, len(ops)) if ('deep_tree' in label or 'reloc' in label) else ctx.rng.randrange(1, len(ops)),)
+        ops, rp = sysprops.accepted_only(ops, rp)
         sysprops.run_oracle(ctx, 'C08', iter([(label + '+reopen', cfg, ops, sizes)]), oracle, need_reopen=False, max_shrink=1,
                             build_kwargs={'reopen_points': rp})
     rrleaf.flush(ctx)
